@@ -189,7 +189,7 @@ theorem C09_source_shape :
     Gen.C09.newBlockLocked = true ∧ Gen.C09.addLocked = true ∧
     Gen.C09.bucketCond = "height <= bestHeight" ∧
     Gen.C09.addExpiredCond = "expiry <= bestHeight" ∧
-    Gen.C09.overdueSkipCond = "!ok || blockHeight != curExpiry" ∧
+    Gen.C09.overdueSkipCond = "!$ok || $cur != $height" ∧
     Gen.C09.mutexUses = ["NewBlock:w.expirationsMtx.Lock()", "NewBlock:defer w.expirationsMtx.Unlock()",
       "AddAccountExpiration:w.expirationsMtx.Lock()", "AddAccountExpiration:defer w.expirationsMtx.Unlock()"] := by
   decide
